@@ -362,6 +362,8 @@ def judge(ctx, case):
                 involved = [recv] + [a for a in args if isinstance(a, (Bits, Array))] + [v for v in kw.values() if isinstance(v, (Bits, Array))]
                 imm_before = [(o, snap(o)) for o in involved if type(o) in (Bits, ConstBitStream)]
                 is_prop = name.startswith('get:') or name.startswith('set:')
+                if not is_prop and name != 'iterate' and not hasattr(type(recv), name):
+                    continue        # the class does not define this method (e.g. a mutator on an immutable class)
                 if name.startswith('get:'):
                     f = lambda: getattr(recv, name[4:])  # noqa: E731
                 elif name.startswith('set:'):
